@@ -445,6 +445,34 @@ def run(ctx, prog):
     bucket_state_closed(ctx, prog)
     declared_rate(ctx, prog)
     charged_once(ctx, prog)
+    # ------------------------------------------------------------------ R7 the global bucket exists whenever the limit is configured
+    ctx.rule('C19.R7', 'the bound on total admitted traffic needs the global bucket: the limiter the server installs is built by RateLimiter::new_with_global, whose '
+                       'argument is Some(rate_limit.max_qps_global) on every path on which rate limiting is enabled — the None alternative is chosen only on the '
+                       '¬rate_limit.enabled edge, not by an estimate of what the configured tenants could reach (a tenant without its own max_qps gets the server '
+                       'default later, in the interceptor)')
+    n7 = 0
+    for mb in prog.family(ctx.body('C19.R7', 'kyrodb_server::main')):
+        for c in mb.calls:
+            if not (c.callee and c.callee.endswith('RateLimiter::new_with_global') and c.args):
+                continue
+            n7 += 1
+            of7 = flow.Origin(mb)
+            alts = flow.top_alternatives(of7.of_operand(c.args[0]))
+            r_alts = [flow.render(a) for a in alts]
+            some_ok = any(re.match(r'^(core::)?option::Option::Some\{.*RateLimitConfig\.max_qps_global.*\}$', r_) for r_ in r_alts)
+            # blocks that build the None alternative
+            none_blocks = [i_ for i_, blk in enumerate(mb.blocks) if i_ in mb.live_blocks() for st in blk['s']
+                           if st.get('rv', {}).get('k') == 'agg' and str(st['rv'].get('adt', '')).endswith('Option') and st['rv'].get('variant') == 'None' and
+                           'u32' in mb.locals[st['pl']['l']] and c.bb in mb.reach([i_])]
+            dis_e = [(i_, tg) for i_, blk in enumerate(mb.blocks) if blk['t']['k'] == 'switch' and i_ in mb.live_blocks() for tg, p_ in flow.switch_edge_predicates(mb, i_, of7)
+                     if re.match(r'^!bool\[.*RateLimitConfig\.enabled\]$', p_)]
+            r0 = mb.reach([0], avoid_edges=dis_e)
+            leak = [b_ for b_ in none_blocks if b_ in r0 and c.bb in mb.reach([b_])]
+            # only the None that actually flows into this argument matters
+            leak = [b_ for b_ in leak if any(flow.render(a) in ('option::Option::None{}', 'core::option::Option::None{}') for a in alts)]
+            ctx.inst('C19.R7', mb.short.split('::{')[0], 'the installed limiter has its global bucket whenever rate limiting is enabled', some_ok and bool(dis_e) and not leak,
+                     'new_with_global(%s); the None alternative is %s' % (' | '.join(x[:60] for x in r_alts), 'reachable with rate limiting enabled' if leak else 'chosen only on the ¬enabled edge'))
+    ctx.floor('C19.R7', 'limiter constructions in main', n7, 1, 'one')
     ctx.stat('functions_analysed', len(TENANT_RPCS) + 6)
 
 
